@@ -332,6 +332,13 @@ func (g *Gen) msgCreate(op int, s Snap) Msg {
 			key = 100 + r.N(NOPS)
 		}
 	}
+	if g.Cfg.Mode != "calm" && op >= 0 && op < NOPS {
+		// an operator applying again (after its first application was removed) often comes with a new key
+		if g.createdOnce[op] && r.P(50) {
+			key = (op + 1 + r.N(NOPS-1)) % NOPS
+		}
+		g.createdOnce[op] = true
+	}
 	if g.Cfg.Mode == "envelope" && r.P(10) {
 		// re-registering the consensus key of a validator that was removed and is still unbonding (refused)
 		gone := g.classOps(s, func(o OpInfo) bool { return o.Exists && (o.Status != 3 || o.Tokens == 0) })
@@ -393,9 +400,9 @@ func (g *Gen) msgParams(s Snap) Msg {
 	case 3:
 		unbond = []int64{0, -1, -1_000_000_000}[r.N(3)] // invalid values only: a valid but tiny unbonding time lets a removed validator mature while CometBFT still reports its votes
 	case 4:
-		denom = 2
+		denom = []int{2, 2, 3, 4, 5, 6}[r.N(6)] // kind 1 (another valid denom) is never generated: x/staking permits the change and the chain stops working; outside the model
 	case 5:
-		minComm = []int64{-1, 1_000_000_000_000_000_001, 1_000_000_000_000_000_000}[r.N(3)]
+		minComm = []int64{-1, 1_000_000_000_000_000_001, 1_000_000_000_000_000_000, 150_000_000_000_000_000, 300_000_000_000_000_000, 300_000_000_000_000_000}[r.N(6)]
 	case 6:
 		maxEntries = int64(r.N(2))
 	case 7:
